@@ -2,6 +2,7 @@
     Only statements closed by [exact]; proofs in Resolve/SortProofs.v and Resolve/VirtualProofs.v. *)
 From Coq Require Import String.
 From Coq Require Import List Ascii ZArith Bool Lia Sorting.Sorted Sorting.Permutation.
+From CGV Require Hydro.Squash.
 From CGV Require Import Base.PyBase Base.PyVal Base.NxGraph Resolve.Bonding Resolve.GraphOps Resolve.Pipeline
      Resolve.MapDefs Resolve.Witness Resolve.SortProofs Resolve.VirtualProofs Resolve.SortGraphProofs Resolve.DriversInst Resolve.NameProofs Resolve.NameStep Resolve.PipelineFull.
 From CGV Require Import Hydro.SquashDefs.
@@ -116,6 +117,50 @@ Theorem C12_step_names_unique : forall (E : list pystr) legacy fd prev car fo, F
   NoDup (node_keys (fo_m6 fo)) -> NoDup (node_keys (fo_meta fo)) -> fragid_nodup (fo_m6 fo) -> elemsE E (fo_m6 fo) ->
   forall k g, In (k, g) (fo_fgs fo) -> NoDup (map (name_in (fo_mol fo)) (node_keys g)).
 Proof. exact step_names_unique. Qed.
+(** the same without any hypothesis on intermediate graphs: the coarse graphs have distinct keys whatever the fragid lists
+    look like, the sorted graph has distinct keys because relabel_copy only uses add_node / add_edge; what is left is about
+    the INPUT (distinct coarse keys) and the alphabet (no digit inside an element symbol) *)
+Theorem C12_annotate_groups_any : forall meta mol fgs, annotate_fragments meta mol = Ok fgs ->
+  NoDup (node_keys mol) -> NoDup (node_keys meta) ->
+  (forall g, In g (fraglist_of meta fgs) -> NoDup (snd g)) /\
+  shared_ok (fun k => node_get mol k (S "fragid")) [] (fraglist_of meta fgs).
+Proof. exact annotate_groups_any. Qed.
+Theorem C12_sorted_keys_distinct : forall g h, sort_nodes_by_attr g = Ok h -> NoDup (node_keys h).
+Proof. exact sort_nodup. Qed.
+Theorem C12_step_names_unique_any : forall legacy fd prev car fo,
+  resolve_step_full legacy true fd prev car = Ok fo -> NoDup (node_keys prev) ->
+  (forall k el, node_get (fo_m6 fo) k (S "element") = Some (VStr el) -> digit_free el) ->
+  forall k g, In (k, g) (fo_fgs fo) -> NoDup (map (name_in (fo_mol fo)) (node_keys g)).
+Proof. exact step_names_unique_any. Qed.
+(** non-vacuity: {[#A][#A]}.{#A=CC[$]} resolved all-atom (the transcript is the model's own graph after squash): the step
+    returns, the coarse keys are distinct, no element has a digit, and each coarse node gets C0 C1 H2..H6 *)
+Definition catomw (h : Z) (extra : attrs) : attrs :=
+  ([(S "element", VStr (S "C")); (S "charge", VInt 0); (S "aromatic", VBool false); (S "hcount", VInt h)] ++ extra)%list.
+Definition fd_CC : fragdict :=
+  [(S "A", add_edge (add_node (add_node gempty 0 (catomw 3 [(S "fragname", VStr (S "A")); (S "fragid", VInt 0)]))
+                     1 (catomw 2 [(S "fragname", VStr (S "A")); (S "fragid", VInt 0); (S "bonding", VList [VStr (S "$1")])]))
+           0 1 [(S "order", VInt 1)])].
+Definition base_AA : graph := [cnode 0 "A" [(1, 1)]; cnode 1 "A" [(0, 1)]].
+Definition m3_AA : option graph :=
+  match resolve_disconnected fd_CC base_AA with
+  | Ok (m1, fg1) => match bonding_step true true base_AA m1 fg1 with
+                    | Ok (m2, _) => match Hydro.Squash.squash_atoms m2 with Ok m3 => Some m3 | _ => None end | _ => None end
+  | _ => None end.
+Definition names_AA : res (list (Z * list (option pyval)) * bool) :=
+  match m3_AA with
+  | Some m3 =>
+      match resolve_step_full true true fd_CC base_AA (Some m3) with
+      | Ok fo => Ok (map (fun kg => (fst kg, map (name_in (fo_mol fo)) (node_keys (snd kg)))) (fo_fgs fo),
+                     forallb (fun n => match aget (S "element") (na n) with
+                                       | Some (VStr el) => forallb (fun c => negb (is_digit c)) el | _ => true end) (fo_m6 fo))
+      | Err e => Err e
+      end
+  | None => Err EKey
+  end.
+Example C12_step_names_unique_any_nonvacuous :
+  NoDup (node_keys base_AA) /\
+  names_AA = Ok (let l := map (fun s => Some (VStr s)) [S "C0"; S "C1"; S "H2"; S "H3"; S "H4"; S "H5"; S "H6"] in [(0, l); (1, l)], true).
+Proof. split; [vm_compute; repeat constructor; cbn; intuition discriminate|vm_compute; reflexivity]. Qed.
 (** element ++ str(index) determines element and index when the element has no digit *)
 Theorem C12_label_injective : forall e e' i j, digit_free e -> digit_free e' -> 0 <= i -> 0 <= j ->
   atom_label e i = atom_label e' j -> e = e' /\ i = j.
@@ -216,6 +261,9 @@ Print Assumptions C12_names_unique_per_coarse_node.
 Print Assumptions C12_label_injective.
 Print Assumptions C12_annotate_groups.
 Print Assumptions C12_step_names_unique.
+Print Assumptions C12_annotate_groups_any.
+Print Assumptions C12_sorted_keys_distinct.
+Print Assumptions C12_step_names_unique_any.
 Print Assumptions C12_sort_keys.
 Print Assumptions C12_sort_sorted.
 Print Assumptions C12_block_contiguous.
